@@ -354,16 +354,17 @@ static std::vector<Op> build_ops(long sqrmax, long sqrgeneric) {
       // |hi - lo| of an n-limb operand split as in mpn_kara_mul_n (lo zero-extended to n3 limbs); returns the sign
       auto diff = [&](const V &a, V &d) { V lo(a.begin(), a.begin() + n2), hi(a.begin() + n2, a.end()); lo.resize(n3, 0); d.assign(n3, 0);
         if (own::aors(d.data(), hi, lo, n3, 0, true)) { own::aors(d.data(), lo, hi, n3, 0, true); return -1; } return 1; };
-      for (int attempt = 0;; attempt++) {
-        V x, y, dx, dy; fill_style(x, n, attempt > 8 ? ST_RANDOM : pick_style(r), r); fill_style(y, n, attempt > 8 ? ST_RANDOM : pick_style(r), r);
+      { V x, y, dx, dy; fill_style(x, n, pick_style(r), r); fill_style(y, n, pick_style(r), r);
         int s = diff(x, dx) * diff(y, dy);
+        // mpn_kara_mul_n calls karasub when (xh-xl)(yh-yl) >= 0 and karaadd when it is negative (with tp = |..|*|..|).
+        // Wrong sign for this routine: flip the sign of xh-xl (for odd n, xh < xl needs a zero top limb), then swap halves.
+        if ((s > 0) != (v == 1)) { int sx = diff(x, dx); if (n2 != n3) x[n - 1] = sx > 0 ? 0 : 1; if (diff(x, dx) == sx) std::swap_ranges(x.begin(), x.begin() + n2, x.begin() + n2);
+          s = diff(x, dx) * diff(y, dy); }
         bool zero = std::all_of(dx.begin(), dx.end(), [](U t) { return !t; }) || std::all_of(dy.begin(), dy.end(), [](U t) { return !t; });
-        // mpn_kara_mul_n calls karasub when (xh-xl)(yh-yl) >= 0 and karaadd when it is negative (with tp = |..|*|..|)
-        if (!zero && (s > 0) != (v == 1)) continue;           // wrong sign for this routine: draw again (p = 1/2 with random limbs)
-        if (zero && attempt < 4) continue;                    // M = 0 is legal for both, but keep it rare
+        if (!zero && (s > 0) != (v == 1)) { fprintf(stderr, "kara generator: sign construction failed\n"); exit(2); }   // M == 0 is legal for both routines
         V xl(x.begin(), x.begin() + n2), xh(x.begin() + n2, x.end()), yl(y.begin(), y.begin() + n2), yh(y.begin() + n2, y.end());
         V L = own::mulfull(xl, n2, yl, n2), H = own::mulfull(xh, n3, yh, n3), M = own::mulfull(dx, n3, dy, n3);
-        c.v[0] = L; c.v[0].insert(c.v[0].end(), H.begin(), H.end()); c.v[1] = M; break; } };
+        c.v[0] = L; c.v[0].insert(c.v[0].end(), H.begin(), H.end()); c.v[1] = M; } };
     op.call = [](F8 f, const Case &c, U **p) { return call8(f, P(0), P(1), c.n); }; add(op); }
 
   // ---- redc_1 (cp, tp, mp, n, Nprim)
